@@ -51,6 +51,24 @@ class PostDict(TraitType):
 
 import collections
 
+
+class UList(list):
+    """a user-defined list subclass"""
+
+
+class PostOD(TraitType):
+    """custom trait types whose (inferred) default is an instance of a dict / list SUBCLASS"""
+
+    def __init__(self, **metadata):
+        super().__init__(**metadata)
+        self.default_value = collections.OrderedDict(p=1)
+
+
+class InitUL(TraitType):
+    def init(self):
+        self.default_value = UList([1])
+
+
 # one reusable definition object (what Trait(...) returns is a CTrait) used for several attributes and classes
 SHARED_DEF = __import__("traits.api", fromlist=["Trait"]).Trait(0.5)
 
@@ -81,6 +99,9 @@ def mk_class():
         uni_n = Union(Union(Set(Int), Str), Int)      # nested
         cust_i = InitList()
         cust_p = PostDict()
+        cust_od = PostOD()
+        cust_ul = InitUL()
+        tr_dd = __import__("traits.api", fromlist=["Trait"]).Trait(collections.defaultdict(list, a=[1]), dict)
         od = Any(collections.OrderedDict(a=1))          # dict / list SUBCLASS defaults: copied per instance like plain ones
         cnt = Any(collections.Counter("aab"))
         sh_x = SHARED_DEF                              # two attributes from one definition; only sh_x has a default method / handler
@@ -123,19 +144,20 @@ def mk_class():
 
 
 NAMES = ["c_int", "c_str", "l_copy", "d_copy", "lst", "dct", "st", "inst", "dyn", "lazy", "tup_c", "tup_m", "uni", "over",
-         "uni_s", "uni_d", "uni_n", "cust_i", "cust_p", "od", "cnt", "sh_x", "sh_y"]
+         "uni_s", "uni_d", "uni_n", "cust_i", "cust_p", "od", "cnt", "sh_x", "sh_y", "cust_od", "cust_ul", "tr_dd"]
 FRESH = {"l_copy", "d_copy", "lst", "dct", "st", "inst", "dyn", "lazy", "tup_m", "uni", "uni_s", "uni_d", "uni_n", "cust_i", "cust_p",
-         "od", "cnt"}
+         "od", "cnt", "cust_od", "cust_ul", "tr_dd"}
 EXPECT = {"c_int": 5, "c_str": "dflt", "l_copy": [1, 2], "d_copy": {"a": 1}, "lst": [1, 2, 3], "dct": {"k": 1}, "st": {1},
           "tup_c": (0, ""), "tup_m": ("", []), "uni": [], "over": 1, "lazy": [7, 8],
           "uni_s": set(), "uni_d": {}, "uni_n": set(), "cust_i": [1], "cust_p": {"p": 1},
-          "od": collections.OrderedDict(a=1), "cnt": collections.Counter("aab"), "sh_x": 10.5, "sh_y": 0.5}
+          "od": collections.OrderedDict(a=1), "cnt": collections.Counter("aab"), "sh_x": 10.5, "sh_y": 0.5,
+          "cust_od": collections.OrderedDict(p=1), "cust_ul": [1], "tr_dd": {"a": [1]}}
 # a valid non-default value per kind (reset obligations)
 ASSIGN = {"c_int": lambda: 6, "c_str": lambda: "s", "l_copy": lambda: [9], "d_copy": lambda: {"z": 1}, "lst": lambda: [7],
           "dct": lambda: {"q": 2}, "st": lambda: {3}, "inst": lambda: Leaf(v=3), "dyn": lambda: ["mine"], "tup_c": lambda: (1, "a"),
           "tup_m": lambda: ("x", [1]), "uni": lambda: 3, "over": lambda: 5, "uni_s": lambda: 4, "uni_d": lambda: {"k": 1},
           "uni_n": lambda: "s", "cust_i": lambda: [5], "cust_p": lambda: {"q": 1}, "od": lambda: {"z": 2}, "cnt": lambda: {"q": 1},
-          "sh_x": lambda: 2.5, "sh_y": lambda: 3.5}
+          "sh_x": lambda: 2.5, "sh_y": lambda: 3.5, "cust_od": lambda: {"q": 1}, "cust_ul": lambda: [5], "tr_dd": lambda: {"z": [2]}}
 
 
 def mutable_parts(v):
@@ -293,6 +315,9 @@ def isolation_harness(k):
                 actor.uni_n.add(2)
                 actor.cust_i.append(2)
                 actor.cust_p["y"] = 2
+                actor.cust_od["y"] = 2
+                actor.cust_ul.append(2)
+                actor.tr_dd["b"] = [2]
             elif op == "otc":
                 actor.on_trait_change(lambda: log["actor"].append("c_int"), "c_int")
                 actor.on_trait_change(lambda: log["actor"].append("lst_items"), "lst_items")
@@ -358,6 +383,59 @@ def isolation_harness(k):
     return harness
 
 
+def wildcard_isolation_harness(ex):
+    """names governed by a typed wildcard (opt_ = Int(5)): whatever one instance does with such a name first - registering a
+    handler in any way before the name was ever used, assigning it, reading it - another instance of the class sees the declared
+    default, validates as declared and never calls the first instance's handlers"""
+    from traits.observation.api import trait as trait_
+
+    class W(HasTraits):
+        opt_ = Int(5)
+        other = Int(0)
+
+    a, b = W(), W()
+    calls = []
+    how = ex.choice("registration", 5)
+    if how == 0:
+        a.on_trait_change(lambda: calls.append("otc"), "opt_x")
+    elif how == 1:
+        a.observe(lambda e: calls.append("observe"), trait_("opt_x", optional=True))
+    elif how == 2:
+        a.observe(lambda e: calls.append("observe") if e.name == "opt_x" else None, "*")
+    elif how == 3:
+        a.on_trait_change(lambda obj, name, old, new: calls.append("anytrait") if name == "opt_x" else None)
+    else:
+        a.observe(lambda e: calls.append("observe"), trait_("opt_x", optional=True))
+        a.on_trait_change(lambda: calls.append("otc"), "opt_x")
+    first = ex.choice("first_use", 3)
+    if first == 1:
+        a.opt_x = 7
+    elif first == 2:
+        a.opt_x
+    del calls[:]
+    ex.check(b.opt_x == 5, "another instance reads the wildcard's declared default")
+    b.opt_x = 9
+    ex.check(calls == [], "handlers registered on one instance for a wildcard-governed name are not called for another instance")
+    try:
+        b.opt_x = "text"
+        rej = False
+    except TraitError:
+        rej = True
+    ex.check(rej and b.opt_x == 9, "the other instance validates the name as the wildcard declares")
+    ex.check(a.opt_x == (7 if first == 1 else 5), "... and the first instance keeps its own value")
+    c = W()
+    c.opt_x = 11
+    ex.check(calls == [], "... nor for an instance created later")
+    n_ = len(calls)
+    a.opt_x = 21
+    if not (how in (1, 2) and first == 0):
+        # (observe on a name that ANOTHER instance resolved first is the recorded class-cache finding of C08 / C09, not isolation)
+        ex.check(len(calls) - n_ == (2 if how == 4 else 1), "the registering instance's own change calls its handlers once each")
+    ct = W.class_traits().get("opt_x")
+    ex.check(ct is None or not (ct._notifiers(False) or []), "instance-level registration does not reach the class-level (cached) wildcard trait")
+    return {"how": how}
+
+
 def obligations(tier, build):
     cenv.load_program(build)
     obs = []
@@ -375,6 +453,9 @@ def obligations(tier, build):
     obs.append(Obligation("isolation/k=%d" % K, isolation_harness(K), bounds={"history length": K, "operations": OPS,
                                                                            "siblings": "one created before, one after"},
                           leverage="choice feasibility only", max_paths=100000))
+    obs.append(Obligation("isolation/wildcard-names", wildcard_isolation_harness,
+                          bounds={"registrations": ["on_trait_change(name)", "observe(trait(name, optional))", "observe('*')", "object-level handler", "two at once"],
+                                  "first use on the registering instance": ["none", "assignment", "read"]}, leverage="choice feasibility only"))
     import props._owners as owners_
     for kind_ in ("list", "dict", "set"):
         obs.append(Obligation("sharing/%s" % kind_, owners_.sharing_harness(kind_),
